@@ -244,6 +244,22 @@ func (mc *Chain) processVerifyBlock(ctx context.Context, b *block.Block) error {
 		}
 	}
 
+	// Tickets attached to a received block count towards its notarization below, so they must be
+	// from distinct miners of the round and carry valid signatures on the block hash
+	// (MergeVerificationTickets does not verify the block's own tickets).
+	if own := b.GetVerificationTickets(); len(own) > 0 {
+		seen := make(map[string]struct{}, len(own))
+		for _, vt := range own {
+			if _, ok := seen[vt.VerifierID]; ok {
+				return common.NewError("verify_block", "duplicate verification tickets attached to the block")
+			}
+			seen[vt.VerifierID] = struct{}{}
+		}
+		if err := mc.VerifyTickets(ctx, b.Hash, own, b.Round); err != nil {
+			return err
+		}
+	}
+
 	vts := mr.GetVerificationTickets(b.Hash)
 
 	// TODO: mc.MergeVerificationTickets does not verify block's own tickets, might be a problem!
